@@ -138,7 +138,8 @@ def desc(case, **kw):
     d = dict(chain=repr(case['chain']), n_states=case['ns'], n_inputs=case['nu'],
              episode_feature=case['ep'], layout=case['mode'], min_samples=case['w'],
              X=np.asarray(case['X']).tolist(),
-             fit_on_zero_inputs=bool(case.get('Xfit') is not case['X']))
+             fit_on_zero_inputs=bool(case.get('Xfit') is not case['X']),
+             cid=int(case.get('cid', 0)), refitted_after_other_layout=bool(case.get('prefit', False)))
     d.update(kw)
     return d
 
